@@ -68,5 +68,5 @@ func runSelftest() int {
 	return 0
 }
 
-var selftestHold = []string{"Basic", "DB", "Corpus"}
+var selftestHold = []string{"Basic", "Index", "Unicode", "DB", "Corpus"}
 var selftestBuggy = []string{"Buggy"}
